@@ -353,6 +353,10 @@ func (in *Interp) field(st *State, base Val, sel string, at ast.Node) Val {
 			return v
 		}
 	}
+	// a field written earlier on this path through the same (symbolic) base
+	if v, ok := st.symFields[base.Canon()+"."+sel]; ok && v != nil {
+		return v
+	}
 	return Sym{Name: base.Canon() + "." + sel}
 }
 
@@ -814,6 +818,10 @@ func (in *Interp) store(lhs ast.Expr, v Val, st *State) {
 				}
 			}
 			st.Emit("store "+base.Canon()+"."+x.Sel.Name, lhs.Pos(), v)
+			if st.symFields == nil {
+				st.symFields = map[string]Val{}
+			}
+			st.symFields[base.Canon()+"."+x.Sel.Name] = v
 			return
 		}
 	case *ast.IndexExpr:
